@@ -352,4 +352,38 @@ def make_stubs(world):
               'policy_file', 'policy_dirs', 'policy_default_rule'):
         S.fields[f] = ['$OsloPolicyGroup']
 
+
+    # ------------------------------------------------------------------ logging / masking (debug block of enforce)
+    @S.meth('isEnabledFor', doc='LOG.isEnabledFor(level): an arbitrary boolean')
+    def is_enabled_for(eng, st, recv, pos, kw):
+        return ok(st, mk_bool(eng.fresh('debug_enabled', Bool)))
+    S.calls['LOG.isEnabledFor'] = lambda eng, st, pos, kw: ok(st, mk_bool(eng.fresh('debug_enabled', Bool)))
+
+    @S.fn('strutils.mask_dict_password', doc='returns a fresh value or raises any Exception; does not write its '
+          'argument (oslo.utils documents a copy) -- trusted')
+    def mask(eng, st, pos, kw):
+        bad = st.fork()
+        bad2 = st.fork()
+        return [(st, 'ok', eng.fresh('masked')), (bad, 'exc', ExcVal('$OtherException')),
+                (bad2, 'exc', ExcVal('TypeError'))]
+
+    @S.meth('to_policy_values', doc='RequestContext.to_policy_values(): a MutableMapping ($PolicyValues) whose content '
+            'is policy_values(context); Mapping mix-in semantics for get/[]/in/items')
+    def to_policy_values(eng, st, recv, pos, kw):
+        from specs.external import policy_values
+        o = eng.alloc(st, '$PolicyValues')
+        m = policy_values(recv)
+        eng.set(st, o, '$val', V.dict(m))
+        from specs.strings import jsonlike
+        st.assume(jsonlike(V.dict(m)))
+        return ok(st, o)
+
+    def class_attr(eng, st, o):
+        if isinstance(o, Static):
+            raise Unsupported('__class__ of static')
+        t = eng.alloc(st, '$Type')
+        eng.set(st, t, '$of', o)
+        return ok(st, t)
+    S.attrs['__class__'] = class_attr
+
     return S
